@@ -178,6 +178,7 @@ def h_attractor_under_assumptions(ctx):
                   xk=lambda w_, L: list(), safe=lambda w_, L: None,
                   x=lambda w_, L: None),
         mutated=dict(lists=_havoc_lists),
+        mutated_ok=('xjk', 'yj'),      # the two lists `_havoc_lists` re-creates
         inv=inv)}
     before = snapshot(aut)
     if w.symbolic:
